@@ -76,6 +76,22 @@ def make_args_unique(a: ast.Lambda) -> ast.Lambda:
     return replace_args().visit(copy.deepcopy(a))
 
 
+def _copy_tree(node: ast.AST) -> ast.AST:
+    """Copy the nodes of a tree; attributes that are not part of the tree (the dataset object
+    attached to an `EventDataset` node, ...) are kept by reference."""
+    new_node = copy.copy(node)
+    for field, value in ast.iter_fields(node):
+        if isinstance(value, list):
+            setattr(
+                new_node,
+                field,
+                [_copy_tree(v) if isinstance(v, ast.AST) else v for v in value],
+            )
+        elif isinstance(value, ast.AST):
+            setattr(new_node, field, _copy_tree(value))
+    return new_node
+
+
 def convolute(ast_g: ast.Lambda, ast_f: ast.Lambda):
     "Return an AST that represents g(f(args))"
     # Combine the lambdas into a single call by calling g with f as an argument
@@ -562,7 +578,12 @@ class simplify_chained_calls(FuncADLNodeTransformer):
 
     def visit_Name(self, name_node):
         "Do lookup and see if we should translate or not."
-        return self._arg_stack.lookup_name(name_node.id, default=name_node)
+        value = self._arg_stack.lookup_name(name_node.id, default=None)
+        if value is None:
+            return name_node
+        # Every occurrence gets its own copy: one node object in several places of the result
+        # confuses ast.unparse (parentheses) and anything else that edits or annotates nodes.
+        return _copy_tree(value)
 
     def visit_Lambda(self, node: ast.Lambda):
         """A lambda that is not being called: its parameters get fresh names before the body is
